@@ -96,6 +96,8 @@ def generate(rng, tier: str, index: int) -> dict:
     return {
         'micro_seed': rng.randint(1, 1 << 48), 'knobs': knobs(rng), 'neighbors': nbrs, 'events': events,
         'attempts': attempts, 'openwait': rng.choice([3, 10]), 'horizon': 60.0,
+        # a helper that reads slowly: its pipe fills (EAGAIN, short writes) while sessions flap; what it reads stays in order
+        'pipe': rng.choice([None, None, None, None, None, {'capacity': rng.choice([40, 200, 600]), 'refill_every': rng.choice([0.05, 0.5, 2.0])}]),
     }  # fmt: skip
 
 
@@ -174,6 +176,14 @@ def execute(plan: dict) -> dict:
 
     w.boot(conf_text())
     h = w.procs.helper('h1')
+    if plan.get('pipe'):
+        h.capacity = plan['pipe']['capacity']
+
+        def refill() -> None:
+            h.capacity = (h.capacity or 0) + plan['pipe']['capacity']
+            w.after(plan['pipe']['refill_every'], refill)
+
+        w.after(plan['pipe']['refill_every'], refill)
 
     probes = {'events_fired': 0, 'fired_in_connecting_state': 0, 'collisions': 0, 'incoming_accepted': 0, 'reloads': 0, 'established': 0}
     faults: dict = {}
@@ -368,8 +378,8 @@ def execute(plan: dict) -> dict:
         violations.extend(check_wire(w, speakers))
     if not violations:
         violations.extend(check_updown(w, h))
-    if not violations and snapshot['fsm'] is not None and snapshot['t'] < 1e17:
-        violations.extend(check_final_down(w, h, snapshot))
+    if not violations and snapshot['fsm'] is not None and snapshot['t'] < 1e17 and not plan.get('pipe'):
+        violations.extend(check_final_down(w, h, snapshot))  # (with a slow pipe the last events may still be queued: order only)
     nontrivial = probes['fired_in_connecting_state'] > 0 or probes['collisions'] > 0
     return result(w, violations[:1], faults=faults, probes=probes, nontrivial=nontrivial, sample={'neighbors': len(nbrs), 'events': len(plan['events'])})
 
